@@ -16,7 +16,7 @@ ASSUMPTIONS = [
     "what 'a fit learns' is observed through the public attributes (start/stop; birth_range, pers_range, width, height, resolution) and through transform outputs",
     "landscaper outputs are compared exactly with PersLandscapeApprox on the grid the MODEL predicts; imager state is compared (1e-9 relative) with "
     "a fresh imager fitted on the last data only",
-    "fitted data span a positive extent in birth and persistence (imager); every history starts with a fit",
+    "every history starts with a fit; fits on data whose births (or persistences) are all equal are included - the learned state must then equal that of a fresh imager fitted on the same data, whatever it is",
 ]
 
 # =========================================================================================
@@ -157,8 +157,9 @@ def imager_data(draw):
     for _ in range(k):
         n = draw(st.integers(2, 5))
         pts = []
+        same_birth = draw(st.integers(0, 5)) == 0
         for i in range(n):
-            b = shift + sc * draw(st.sampled_from([0.0, 0.1, 0.3, 0.7, 1.0, 2.5, 4.0]))
+            b = shift + sc * (0.0 if same_birth else draw(st.sampled_from([0.0, 0.1, 0.3, 0.7, 1.0, 2.5, 4.0])))
             p = sc * draw(st.sampled_from([0.1, 0.2, 0.3, 0.7, 1.0, 1.5, 3.3]))
             pts.append([b, b + p])
         dgms.append(pts)
@@ -220,6 +221,8 @@ def images_equal(a, b, exact=True):
         x, y = np.asarray(x), np.asarray(y)
         if x.shape != y.shape:
             return False
+        if x.size == 0:
+            continue
         if exact and not np.array_equal(x, y):
             return False
         if not exact and not np.all(np.abs(x - y) <= 1e-7 * max(1.0, float(np.max(np.abs(y))))):
@@ -238,10 +241,11 @@ def run_imager(case, ctx):
     fitted = False
     extents = set()
     saw_transform = False
+    degenerate = False
     for k, op in enumerate(case["ops"]):
         ok, ext = extent_ok(op)
         if not ok:
-            ctx.skip("data without positive extent (outside the stated domain)")
+            degenerate = True   # all births (or all persistences) equal, e.g. H0 diagrams: still "arbitrary collections"
         if (ext[1] - ext[0]) / case["pixel"] > 80 or (ext[3] - ext[2]) / case["pixel"] > 80:
             ctx.skip("resolution beyond the cost bound")
         step = "op %d (%s)" % (k, op["op"])
@@ -287,7 +291,8 @@ def run_imager(case, ctx):
                 ctx.require(np.asarray(out).shape == res, "image_shape", lambda: "%s: image shape %s, resolution %s" % (step, np.asarray(out).shape, res))
         else:
             ctx.skip("unknown op (shrinker)")
-    ctx.label("kernel:" + I.kernel_class(case["kernel"]), "refit_different_extent" if len(extents) >= 2 else None)
+    ctx.label("kernel:" + I.kernel_class(case["kernel"]), "refit_different_extent" if len(extents) >= 2 else None,
+              "zero_extent_fit" if degenerate else None)
     ctx.nontrivial(len(extents) >= 2 and saw_transform and case["ops"][-1]["op"] != "fit")
 
 
